@@ -212,7 +212,7 @@ func (in *Inst) appendCall(x *ssa.Call, st *State) Val {
 	e.assume(st.reach, sApp("<=", newLen, maxAlloc))
 	// appending nothing to a nil slice gives a nil slice
 	r := e.define(in.name(x), "Slc", sIte(inplace,
-		sIte(sAnd(sEq(newLen, "0"), sEq(slcArr(s.T), "0")), nilSlc, mkSlc(slcArr(s.T), slcOff(s.T), newLen, slcCap(s.T))),
+		mkSlc(slcArr(s.T), slcOff(s.T), newLen, slcCap(s.T)),
 		mkSlc(fr, "0", newLen, capc)))
 	rOff := e.define(in.name(x)+".off", "Int", sIte(inplace, slcOff(s.T), "0"))
 	rArr := e.define(in.name(x)+".arr", "Int", sIte(inplace, slcArr(s.T), fr))
@@ -525,9 +525,13 @@ func (in *Inst) calleeEnv(con *Contract, args []Val, sig *types.Signature, st *S
 	env := in.newEnv(st)
 	env.pkg = con.Pkg
 	env.noLocals = true
+	env.callee = true
 	env.old = st
 	// parameter names: contract header, else signature
 	var names []string
+	if con.Pure {
+		return env
+	}
 	if len(con.Params) > 0 {
 		names = con.Params
 	} else {
@@ -680,7 +684,12 @@ func (in *Inst) havocItem(mi ModItem, env *SpecEnv, oldSt, st *State) {
 		a2 := e.freshConst("hv.A", "(Array Int Int)")
 		e.assume(st.reach, fmt.Sprintf("(forall ((j Int)) (! (=> (not (and (<= %s j) (< j %s))) (= (select %s j) (select %s j))) :pattern ((select %s j))))",
 			lo, hi, a2, sSel(m, slcArr(s.T)), a2))
-		st.set("Mem", e.define("Mem", e.compSort("Mem"), sStore(m, slcArr(s.T), a2)))
+		nm := e.define("Mem", e.compSort("Mem"), sStore(m, slcArr(s.T), a2))
+		// the same frame stated on the new memory itself, so that E-matching does not depend on
+		// the array theory first reducing select-over-store
+		e.assume(st.reach, fmt.Sprintf("(forall ((j Int)) (! (=> (not (and (<= %s j) (< j %s))) (= (select (select %s %s) j) (select %s j))) :pattern ((select (select %s %s) j))))",
+			lo, hi, nm, slcArr(s.T), sSel(m, slcArr(s.T)), nm, slcArr(s.T)))
+		st.set("Mem", nm)
 	case modField:
 		pre := env.fork()
 		pre.st = oldSt
